@@ -166,6 +166,14 @@ func init() {
 			}
 			return IntV{in.tf.BV(64, ^uint64(0))}, true
 		},
+		"strings.Repeat": func(in *Interp, _ *frame, a []Value) (Value, bool) {
+			s := in.forceConc(a[0].(*Str), "strings.Repeat")
+			n := int(in.concInt(a[1]))
+			if n < 0 || n*len(s) > 1<<22 {
+				in.goPanic("strings: negative or huge Repeat count")
+			}
+			return concStr(in.tf, strings.Repeat(s, n)), true
+		},
 		"strconv.FormatBool": func(in *Interp, _ *frame, a []Value) (Value, bool) {
 			return in.iteStr(a[0].(*Term), concStr(in.tf, "true"), concStr(in.tf, "false")), true
 		},
@@ -387,37 +395,6 @@ func init() {
 		"crypto/elliptic.P256": func(in *Interp, fr *frame, a []Value) (Value, bool) { return in.curveModel(256), true },
 		"crypto/elliptic.P384": func(in *Interp, fr *frame, a []Value) (Value, bool) { return in.curveModel(384), true },
 		"crypto/elliptic.P521": func(in *Interp, fr *frame, a []Value) (Value, bool) { return in.curveModel(521), true },
-		"(*bytes.Buffer).Write": func(in *Interp, fr *frame, a []Value) (Value, bool) {
-			p := a[0].(PtrV)
-			if p.R == nil {
-				in.goPanic("nil *bytes.Buffer")
-			}
-			sv := p.R.Get().(*StructV)
-			add := a[1].(SliceV)
-			cur := sv.F[0].(SliceV)
-			nb := &Backing{}
-			for i := 0; i < cur.Len; i++ {
-				nb.E = append(nb.E, cur.B.E[cur.Off+i])
-			}
-			for i := 0; i < add.Len; i++ {
-				nb.E = append(nb.E, add.B.E[add.Off+i])
-			}
-			sv.F[0] = SliceV{B: nb, Len: len(nb.E), Cap: len(nb.E)}
-			return Tuple{IntV{in.tf.BV(64, uint64(add.Len))}, Iface{}}, true
-		},
-		"(*bytes.Buffer).String": func(in *Interp, fr *frame, a []Value) (Value, bool) {
-			p := a[0].(PtrV)
-			if p.R == nil {
-				return concStr(in.tf, "<nil>"), true
-			}
-			sv := p.R.Get().(*StructV)
-			cur := sv.F[0].(SliceV)
-			off := int(in.concInt(sv.F[1]))
-			if cur.B == nil {
-				return concStr(in.tf, ""), true
-			}
-			return in.bytesToStr(SliceV{B: cur.B, Off: cur.Off + off, Len: cur.Len - off, Cap: cur.Cap - off}), true
-		},
 		"io.ReadAll": func(in *Interp, _ *frame, a []Value) (Value, bool) {
 			r := a[0].(Iface)
 			if p, ok := r.V.(PtrV); ok && p.R != nil {
